@@ -22,7 +22,8 @@ RULE = (
     "selection: 25 modules x 4 operations x file names instantiated from every pattern (plus multi-pattern, case-changed, "
     "pattern-in-directory and extension-less names) x fmt in {None, every module, unknown} x {existing, missing file} x "
     "{bare, directory prefix, other cwd} [enumerated exhaustively]; declared names of all functions vs the IOData attribute set "
-    "[exhaustive]; guaranteed lists vs every corpus file that loads; required lists: one dump per (format, required attribute) "
+    "[exhaustive]; guaranteed lists vs every corpus file that loads and vs generated files of every model class of the "
+    "specification-following writers (R.spec_writers); required lists: one dump per (format, required attribute) "
     "with that attribute None. distinct = distinct (basename, fmt, operation) triples / (module, list, name) / (file) / "
     "(format, attribute); non-trivial = the expectation was computed independently and compared."
 )
@@ -100,6 +101,13 @@ def plan(tier, seed):
     for e in corpus.entries(max_cost=2.0 if tier == "quick" else None):
         cases.append({"kind": "guaranteed", "file": e["file"], "fmt": e["fmt"], "explicit": e["explicit"]})
     cases.append({"kind": "required"})
+    # generated files: every model class of every specification-following writer (R.spec_writers, shared with C03)
+    from ..ref import spec_writers
+
+    for name, mod in sorted(spec_writers.all_writers().items()):
+        for klass in mod.CLASSES:
+            for rep in range(1 if tier == "quick" else 6):
+                cases.append({"kind": "guaranteed_gen", "writer": name, "klass": klass, "rep": rep, "seed": seed})
     return cases
 
 
@@ -337,6 +345,63 @@ def case_guaranteed(case):
     return viols, feats, counters, {"file": case["file"], "fmt": fmt, "objects": len(objs), "guaranteed": list(m.load_one.guaranteed)}
 
 
+def case_guaranteed_gen(case):
+    """Guaranteed lists against generated well-formed files (all model classes of the spec writers, incl. minimal files
+    with every optional section absent)."""
+    import iodata
+
+    from ..gen.basis import rng_for
+    from ..ref import spec_writers
+
+    mod = spec_writers.all_writers()[case["writer"]]
+    rng = rng_for(17, case["seed"], case["rep"], sum(map(ord, case["writer"] + case["klass"])))
+    model = mod.generate(rng, case["klass"])
+    text = mod.write(model)
+    fmt = mod.FORMAT
+    m = modules()[fmt]
+    explicit = fmt if getattr(mod, "EXPLICIT_FMT", False) else None
+    kwargs = getattr(mod, "load_kwargs", lambda m: {})(model)
+    viols, feats = [], []
+    counters = {"generated_files": 1, "generated_loaded": 0, "generated_refused": 0, "guaranteed_checked": 0, "frames_loaded": 0}
+    root = tempfile.mkdtemp(prefix="vf_c17g_")
+    try:
+        path = os.path.join(root, getattr(mod, "filename", lambda m: mod.FILENAME)(model))
+        with open(path, "w") as fh:
+            fh.write(text)
+        objs = []
+        with warnings.catch_warnings():
+            warnings.simplefilter("ignore")
+            try:
+                objs.append(("load_one", iodata.load_one(path, fmt=explicit, **kwargs)))
+                counters["generated_loaded"] += 1
+            except iodata.utils.LoadError:
+                counters["generated_refused"] += 1  # C03's business (well-formed file refused)
+            if hasattr(m, "load_many"):
+                try:
+                    for k, d in enumerate(iodata.load_many(path, fmt=explicit, **kwargs)):
+                        objs.append(("load_many", d))
+                        counters["frames_loaded"] += 1
+                        if k >= 5:
+                            break
+                except iodata.utils.LoadError:
+                    pass
+    finally:
+        shutil.rmtree(root, ignore_errors=True)
+    for op, d in objs:
+        for name in getattr(m, op).guaranteed:
+            counters["guaranteed_checked"] += 1
+            try:
+                val = getattr(d, name)
+            except AttributeError:
+                continue
+            if val is None:
+                viols.append(_v(f"guaranteed-none:{fmt}:{name}", f"{fmt}.{op} declares {name!r} guaranteed but a generated {case['writer']} file "
+                                f"(class {case['klass']}) loads with {name} = None"))
+    if objs:
+        feats.append(f"guar-gen:{case['writer']}:{case['klass']}")
+    return viols, feats, counters, {"writer": case["writer"], "klass": case["klass"], "objects": len(objs)}
+
+
 def _donor_objects():
     """One loadable corpus object per dump format (smallest first)."""
     import iodata
@@ -420,6 +485,6 @@ def case_required(case):
 
 
 def run_case(case):
-    fn = {"select": case_select, "declared": case_declared, "guaranteed": case_guaranteed, "required": case_required}[case["kind"]]
+    fn = {"select": case_select, "declared": case_declared, "guaranteed": case_guaranteed, "guaranteed_gen": case_guaranteed_gen, "required": case_required}[case["kind"]]
     viols, feats, counters, sample = fn(case)
     return {"status": "violation" if viols else "ok", "violations": viols, "features": feats, "counters": counters, "sample": sample}
